@@ -14,6 +14,8 @@ CLAIMED = {
          "Coq proof: snapshot values + cache-soundness invariant; tie: re-read of open handles after every label"),
  "C04": ("proof", "Close at any point leaves the reference content after a prefix of the batches (C04_close_leaves_prefix, from the ghost prefix invariant a<=b<=d), caught-up persistence leaves everything (C04_caught_up_is_complete), any number of cycles compose (C04_cycles). Tie: lock-step with close/reopen labels at random points; the reopened content is compared with the model's store and with the prefix oracle; child collections included.", "4 (C04)",
          "Coq proof: prefix invariant + cycles; tie: lock-step correspondence with close/reopen labels and a prefix oracle"),
+ "C05": ("proof", "Byte-exact model of the backward footer scan (page-aligned, magic x2, version, length, end magic x2, offset and length cross-checks; fuel proved sufficient). Theorems for files of any number of rounds and any page size >= 20: a complete file yields its last footer (C05_complete_file_finds_last_footer, multi-page footers included); ANY bytes after the last complete footer - partial segments, torn footer, any subset of its pages - are ignored (C05_anything_after_the_last_footer_is_ignored, C05_any_cut_of_the_next_round); the pre-repair scan is refuted for every cut (C05_refuted_pre_fix_torn_footer_is_an_error). Which footer is found determines the served prefix (C04). Tie: crash images enumerated from recorded file-operation traces per the crash model are reopened by the real code and the same bytes scanned by the model; chosen file, footer offset and prefix length are compared. Hypothesis no_fake_footer (no page-aligned data offset is itself accepted as a complete footer) is a trusted assumption about user data. Partial: what a real kernel/disk does beyond the stated crash model is not modelled. Known finding F5 listed.", "4 (C05)",
+         "Coq proof: footer-scan theorems over arbitrary files; tie: crash-image enumeration on recorded traces, same bytes to model and code"),
  "C07": ("proof", "Compaction at every splice point (0 = full) preserves every read, for the root and for every child node (C07_compaction_keeps_content, C07_compaction_keeps_child_content); a full compaction yields one strictly ascending segment without tombstones (for operators that never return nil). Tie: the store footer after every persistence round is compared segment by segment with the model's for all compaction concerns and level parameters; the splice point is taken from the implementation and checked legal. File reclamation is covered under C15.", "4 (C07)",
          "Coq proof: merge_range satisfies merged_ok at every splice point; tie: lock-step on the store footer"),
  "C08": ("proof", "Reads equal the left fold of an arbitrary (non-commutative) operator over the batch history for every schedule and operand placement (C08_reads_fold_in_order); persistence and compaction at any splice point keep the fold (C08_store_keeps_fold). Lock-step correspondence with an order-sensitive operator and Merge-heavy batches over all lower-level kinds and child collections.", "4 (C08)",
@@ -28,6 +30,8 @@ CLAIMED = {
          "Coq proof: window/lookup theorems for every hop and truncation; tie: function-level and API-level correspondence"),
  "C18": ("proof", "For every directory state (any number of data files, incomplete newer files) a read-only open emits no create/write/remove effect and opens every file read-only (C18_readonly_open_never_mutates), persistence and compaction under ReadOnly do nothing (C18_readonly_persist_never_mutates), the newest file with a valid footer is served (C18_serves_newest_valid), and a read-write open removes only other data files. Tie: the model's openStore is compared with the recorded OpenFile calls and unlinks of the implementation on directory states produced by real runs and crash-like edits; directory listing and SHA-256 of every file before/after; served content.", "4 (C18)",
          "Coq proof: effect model of openStore/persist under ReadOnly; tie: recorded file operations + directory hashes"),
+ "C19": ("proof", "The op/keyLen/valLen word round-trips exactly within the documented limits, and the ErrKeyTooLarge/ErrValueTooLarge guard is exactly the non-aliasing condition (C19_word_roundtrips_within_limits, C19_limit_guard_is_exact, C19_oversize_would_alias, with uint64 wrap-around modelled); a persisted segment loads back bit-exactly for arbitrary byte strings, the rest of the file being arbitrary (C19_persisted_segment_roundtrips); page alignment lemmas. Ordering is bytes.Compare = bcmp throughout the models. Alloc-built batches and DeferredSort/CachePersisted equivalence are covered by the lock-step runs (C01 theorem instantiated at both settings). Tie: function-level words and alignments, API-level limits, byte-level parse of real segment files by the model, lock-step runs with Alloc batches.", "4 (C19)",
+         "Coq proof: codec and segment round-trip theorems; tie: function-, byte- and API-level correspondence"),
  "C20": ("proof", "Zero dirty segments imply the lower level equals the reference (C20_zero_gauges_mean_persisted), for every schedule. Gauges are compared with the model at every label and, whenever they are zero, the store's own snapshot with the reference tree (child collections included). Known finding F10b (existence-only batches) is listed.", "4 (C20)",
          "Coq proof: zero gauges => lower level = reference; tie: gauges and store content compared at every label"),
 }
